@@ -167,6 +167,27 @@ def check_bytes(case):
         pass
     nontrivial = "bytes:reparsed" in classes
     sig = sig64("bytes", enc_n, tuple(sorted(set(e[1] for e in errs))), tuple(sorted(args)), nontrivial)
+    # every recorded position lies inside the input (the characters the parser finally decoded), also after a restart in another encoding
+    try:
+        import webencodings
+        codec = webencodings.lookup(enc_n).codec_info.name
+        dec_text = data.decode(codec, "replace")
+        if dec_text.startswith("\ufeff"):
+            dec_text = dec_text[1:]
+        lines = _lines(dec_text)
+    except Exception:
+        lines = None
+    if lines is not None:
+        for (pos, code, vars_) in errs:
+            try:
+                line, col = pos
+                ok = 1 <= line <= len(lines) + 1 and 0 <= col <= (len(lines[line - 1]) if line <= len(lines) else 0)
+            except Exception:
+                ok = False
+            if not ok:
+                return Verdict("fail", "bytes input: error %r at position %r is outside the input as decoded with %s (%d lines, line length %s); input %s args %r"
+                               % (code, pos, enc_n, len(lines), len(lines[pos[0] - 1]) if isinstance(pos, tuple) and 1 <= pos[0] <= len(lines) else "?", short(data, 150), args),
+                               "bytes:position:" + code, nontrivial=True, classes=classes)
     if errs and out[1][0] == "ok":
         return Verdict("fail", "bytes input: non-strict recorded %r but strict mode raised nothing; input %s args %r" % (errs[0], short(data, 150), args),
                        "bytes:strict-silent:" + errs[0][1], nontrivial=True, classes=classes)
